@@ -71,6 +71,10 @@ CLAIMED = {
         technique="MIR sibling-arm agreement on every branch over the collateral kind: transfer constructors compared by (receiver, amount), native required-funds increments compared as a multiset with the amounts the cw20 arm pulls from the trader on the path with the same other conditions",
         note="Decided (the structural clause the 2-run relation rests on): R13.1 native and cw20 arms of every transfer constructor build the same (receiver, amount); R13.1b in the Open replies the native arm raises SentFunds.required by exactly what the cw20 arm pulls from the trader; R13.2 native terminal paths pass the exact-match check, the check accepts equality only, SentFunds is created only by OpenPosition with required=0; R13.3 no chain step pulls cw20 funds from the trader without native attached-funds accounting (known finding F10 on both close replies). Not decided: equality of the two runs' outcomes as such; allowance/balance failure modes.",
         design="4/C13"),
+    "C19": dict(
+        technique="finite-domain abstract interpretation of the extracted MIR paths of every Integer operation over the complete sign x zero-ness x magnitude-order case space, compared with the mathematical table",
+        note="Decided: R19.1 for all 24 consistent operand cases (both encodings of zero) of checked_add/sub/mul/div and Add/Sub/Mul/Div the unique feasible path's result (sign flag, magnitude term) equals the mathematical one, checked and unchecked agree, failure exactly when the Uint128 operation fails / divisor is zero; R19.2 every zero result is observationally zero (==, is_negative/is_positive, cmp both ways); R19.3 eq/cmp/partial_cmp/sign predicates/abs/invert_sign/constructors/Display sign agree with the mathematical value in every case, parsing uses the u128 parser and the sign-aware constructors. Not decided: the magnitude arithmetic (Uint128, trusted); exact behaviour at the 128-bit boundary beyond 'fails iff the magnitude operation fails'; string round-trip of digits.",
+        design="4/C19"),
 }
 
 NOT_BUILT = "rules designed in DESIGN.md section 4 but not built yet"
